@@ -2039,7 +2039,7 @@ class IMAPClientCommand:
             #
             rel = mbox_name[1:] if mbox_name.startswith("/") else mbox_name
             if (
-                rel in (".", "..")
+                rel in ("", ".", "..")
                 or rel.startswith("../")
                 or rel.startswith("/")
             ):
